@@ -110,6 +110,8 @@ func main() {
 		statsPath := fs.String("stats", "", "")
 		corpus := fs.String("corpus", "", "")
 		tier := fs.String("tier", "quick", "")
+		fs.IntVar(&shardIdx, "shard", 0, "")
+		fs.IntVar(&shardN, "nshards", 1, "")
 		_ = fs.Parse(os.Args[2:])
 		runCorr(*prop, *seed, *n, *opsPath, *outPath, *statsPath, *corpus, *tier)
 	case "oracle":
